@@ -156,3 +156,34 @@ def frames(O):
         C01.frames(O)
     finally:
         C01.rep = old
+
+
+@obligation("C18/set-binds", desc="EvalContext::set: every call binds the name in the visible variable map (exactly one "
+            "FramedMap::set with that name and value, no condition, no look-up first) - a let or a counter always shows up in "
+            "vars(), whatever the device reports for an output of that name")
+def set_binds(O):
+    set_binds_core(O, rep())
+
+
+def set_binds_core(O, R):
+    m = O.mir
+    fn = O.find("::set", file="eval_context.rs")
+    eng = O.engine()
+    eng.auto_inline = False
+    paths = O.explore(eng, fn)
+    n = 0
+    for p in paths:
+        eng.focus(p)
+        if p.outcome != "return":
+            R.fail(O, p, "EvalContext::set: %s %s" % (p.outcome, p.detail))
+            continue
+        n += 1
+        calls = [e for e in p.trace if e.kind == "call"]
+        sets = [e for e in calls if e.norm.endswith("FramedMap::set")]
+        others = [e.norm.split("::")[-1] for e in calls if not e.norm.endswith("FramedMap::set")]
+        if len(sets) != 1 or others:
+            R.fail(O, p, "EvalContext::set performs %s instead of one FramedMap::set" % ([e.norm.split("::")[-1] for e in calls]))
+            continue
+        R.prove(O, p, eng.scalar(sets[0].args[2], "i64") == eng.scalar(p.args.fields[3], "i64"), "the value bound is the value given")
+    if n == 0:
+        O.inconclusive("vacuous: EvalContext::set never returns")
